@@ -15,7 +15,7 @@ An operation the tape cannot express (log, pow with a non-integer exponent, a C 
 drops out of the trace: the value continues as a plain double constant.  That never raises an alarm by itself — the
 constant is within a few ulp of the exact value, far below the 1e-12 threshold — and it is counted (`untraced`).
 """
-import math
+import math, os
 import statistics
 import struct
 from contextlib import contextmanager
@@ -68,6 +68,17 @@ class Tape:
         if isinstance(x, float):
             if x != x or x in (math.inf, -math.inf):
                 return None
+            if x != 0.0:
+                # a float constant that is not a traced input: short dyadic rationals (2.0, 0.5, 2^-52) are exact; anything with a long
+                # mantissa (a precomputed sqrt(2*pi), 1/3, a decimal literal) is a ROUNDED stand-in for some real number — the
+                # rounding-free tier cannot speak for a formula that contains one (its 1e-16 is amplified by the same cancellations
+                # the tier measures against), so the tape is marked and the game is left to the double tiers
+                m, _e = math.frexp(x)
+                if (m * 2.0 ** 53) % 2.0 ** 23 != 0.0:
+                    self.rounded_constants = getattr(self, "rounded_constants", 0) + 1
+                    if os.environ.get("VERIF_DEBUG_CONST"):
+                        import traceback as _tb
+                        print("ROUNDED-CONST", repr(x), [f.name + ":" + str(f.lineno) for f in _tb.extract_stack()[-6:-1]])
             return self.const(x)
         return None
 
@@ -193,7 +204,9 @@ class Sym(float):
         a, b = (other, self) if swap else (self, other)
         out = fn(_plain(a), _plain(b))
         if t is not None and t is _TAPE:
+            rc = getattr(t, "rounded_constants", 0)
             na, nb = t.nid(a), t.nid(b)
+            t.rounded_constants = rc          # a threshold in a comparison is a decision, re-decided on big floats — not a rounded quantity
             if na is not None and nb is not None:
                 t.emit("%s:%d:%d:%d" % (tok, na, nb, 1 if out else 0))
                 t.compares += 1
